@@ -10,7 +10,9 @@ RULE = ('complete product: __conform__ behaviour (8) x provided (2) x hook '
         '{absent, value, None} (3) x __adapt__ kind (9), plus __conform__ '
         'attached as staticmethod / classmethod / instance attribute '
         '(function, callable object, functools.partial) x 5 behaviours x '
-        'provided x hook lists <=2 x alternate x 3 __adapt__ kinds, in both '
+        'provided x hook lists <=2 x alternate x 3 __adapt__ kinds, and the '
+        'product over hook lists <=2 repeated with every value false and '
+        'empty, in both '
         'implementations, oracle = precedence model incl. call log; plus '
         'Hypothesis-generated registries whose adapter_hook is the only hook, '
         'oracle = queryAdapter; non-trivial = at least two steps could produce '
@@ -59,6 +61,20 @@ def enumerate_cases(cfg):
                         yield {'t': 'grid', 'conform': conform,
                                'provided': provided, 'hooks': hooks,
                                'alt': alt, 'adapt': adapt}
+    # every value involved (the object, what __conform__ / hooks /
+    # __adapt__ return, the alternate) false and empty: only None means
+    # "no result" (seed C14f); complete product over hook lists <= 2
+    for conform in CONFORM + CONFORM_FORMS:
+        for provided in (False, True):
+            for hooks in hooklists:
+                if len(hooks) > 2:
+                    continue
+                for alt in ALT:
+                    for adapt in (ADAPT if ':' not in conform else
+                                  ('std', 'own_value', 'inh_value_im')):
+                        yield {'t': 'grid', 'conform': conform,
+                               'provided': provided, 'hooks': hooks,
+                               'alt': alt, 'adapt': adapt, 'falsy': True}
     # the other attachment forms, over a reduced but still complete product
     for conform in CONFORM_FORMS:
         for provided in (False, True):
@@ -165,15 +181,24 @@ def _make_iface(adapt, log, adapt_value):
     return ns[name], how
 
 
+class _Falsy:
+    def __bool__(self):
+        return False
+
+    def __len__(self):
+        return 0
+
+
 def _grid_case(case, out):
     from zope.interface import directlyProvides
     from zope.interface import interface as zinterface
 
     log = []
-    conform_value = object()
-    adapt_value = object()
-    hook_values = [object() for _ in case['hooks']]
-    alt_value = object()
+    mkvalue = _Falsy if case.get('falsy') else object
+    conform_value = mkvalue()
+    adapt_value = mkvalue()
+    hook_values = [mkvalue() for _ in case['hooks']]
+    alt_value = mkvalue()
     iface, how = _make_iface(case['adapt'], log, adapt_value)
     conform = case['conform']
     form = 'method'
@@ -230,6 +255,9 @@ def _grid_case(case, out):
             log.append(('conform', id(i)))
             return conform_value
         body['__conform__'] = __conform__
+    if case.get('falsy'):
+        body['__bool__'] = lambda self: False
+        body['__len__'] = lambda self: 0
     cls = type('Obj', (), body)
     if conform == 'unbound_on_class':
         obj = cls            # the class object itself is adapted
@@ -441,6 +469,9 @@ def _reg_case(case, out):
     class Wrap:
         def __init__(self, label, ob):
             self.label, self.ob = label, ob
+
+        def __bool__(self):         # every other adapter is false
+            return bool(self.label % 2)
 
     nif = len(ifaces)
     for k, (req, prov, name, kind) in enumerate(case['regs']):
